@@ -1,5 +1,5 @@
 NAME = 'I-resolve'
-PROPERTIES = ['C02']
+PROPERTIES = ['C02', 'C15']
 ENGINE = 'verus'
 CLASS = 'U'
 DOC = ('Operations::{rebuild_indexes, create_index} (storage/database/operations.rs): the user-defined (CREATE INDEX) indexes of a table are built and '
